@@ -5,7 +5,7 @@
     quantified functions: every theorem holds whatever they answer. *)
 From Coq Require Import String List NArith Bool.
 From Fabio Require Import Lib.Outcome Lib.Bytes Model.Access Proofs.Access Model.BasicReload Proofs.BasicReload
-     Model.BasicSchemes Proofs.BasicSchemes.
+     Model.BasicSchemes Proofs.BasicSchemes Model.GateRequest Proofs.GateRequest.
 Import ListNotations.
 Local Open Scope N_scope.
 
@@ -704,3 +704,153 @@ Theorem C12_schemes_nonvacuous :
   = [EUpstream].
 Proof. exact schemes_nonvacuous. Qed.
 Print Assumptions C12_schemes_nonvacuous.
+
+(* ================= the gates on WHOLE requests: any method, any header map =================
+   Model/GateRequest.v: a request is a method, a RemoteAddr and a header map (any keys, any number
+   of field values); ServeHTTP's gates read RemoteAddr, the X-Forwarded-For values and - through
+   request.BasicAuth() - the first Authorization value, nothing else.  net/http's parseBasicAuth is
+   universally quantified like net.ParseIP and net.SplitHostPort. *)
+
+(* the property's first sentence for whole requests: whatever the method and whatever the headers,
+   an upstream action or a redirect answer only for a request whose peer / X-Forwarded-For list is
+   not denied and whose Authorization field the route's scheme accepts *)
+Theorem C12_request_passes_only_if :
+  forall parse_ip split_host parse_basic_auth t (schemes : scheme_table bcreds) q,
+  passes_gate (serve_http_request parse_ip split_host parse_basic_auth t schemes q) ->
+  exists tg, t = Some tg
+    /\ access_denied_http parse_ip split_host (t_rules tg) (q_remote q) (request_xff q) = false
+    /\ authorized (t_auth tg) schemes (request_creds parse_basic_auth q) = true.
+Proof. exact gate_request_passes_only_if. Qed.
+Print Assumptions C12_request_passes_only_if.
+
+Theorem C12_request_denied_gets_403 :
+  forall parse_ip split_host parse_basic_auth tg (schemes : scheme_table bcreds) q,
+  access_denied_http parse_ip split_host (t_rules tg) (q_remote q) (request_xff q) = true ->
+  rejected_with 403 (serve_http_request parse_ip split_host parse_basic_auth (Some tg) schemes q).
+Proof. exact gate_request_denied_403. Qed.
+Print Assumptions C12_request_denied_gets_403.
+
+Theorem C12_request_unauthorized_gets_401 :
+  forall parse_ip split_host parse_basic_auth tg (schemes : scheme_table bcreds) q,
+  access_denied_http parse_ip split_host (t_rules tg) (q_remote q) (request_xff q) = false ->
+  authorized (t_auth tg) schemes (request_creds parse_basic_auth q) = false ->
+  rejected_with 401 (serve_http_request parse_ip split_host parse_basic_auth (Some tg) schemes q).
+Proof. exact gate_request_unauthorized_401. Qed.
+Print Assumptions C12_request_unauthorized_gets_401.
+
+(* nothing else is ever answered: a request passes, or gets one of 403 / 401 / 404 (no route) /
+   500 (RemoteAddr is not host:port) with no upstream action *)
+Theorem C12_request_outcomes :
+  forall parse_ip split_host parse_basic_auth t (schemes : scheme_table bcreds) q,
+  passes_gate (serve_http_request parse_ip split_host parse_basic_auth t schemes q) \/
+  exists s, rejected_with s (serve_http_request parse_ip split_host parse_basic_auth t schemes q)
+            /\ (s = 403 \/ s = 401 \/ s = 404 \/ s = 500).
+Proof. exact gate_request_outcomes. Qed.
+Print Assumptions C12_request_outcomes.
+
+(* NON-INTERFERENCE: requests that agree on the peer, on the X-Forwarded-For values and on the
+   first Authorization value get the same answer - whatever their methods, whatever else their
+   header maps hold *)
+Theorem C12_request_verdict_reads_only_peer_xff_authorization :
+  forall parse_ip split_host parse_basic_auth t (schemes : scheme_table bcreds) q q',
+  gate_view q = gate_view q' ->
+  serve_http_request parse_ip split_host parse_basic_auth t schemes q =
+  serve_http_request parse_ip split_host parse_basic_auth t schemes q'.
+Proof. exact gate_request_frame. Qed.
+Print Assumptions C12_request_verdict_reads_only_peer_xff_authorization.
+
+(* "a header never opens the gate": any other method and any number of further fields under names
+   other than X-Forwarded-For / Authorization leave a rejected request rejected, same status *)
+Theorem C12_no_header_opens_gate :
+  forall parse_ip split_host parse_basic_auth t (schemes : scheme_table bcreds) q s m' (extra : hheaders),
+  rejected_with s (serve_http_request parse_ip split_host parse_basic_auth t schemes q) ->
+  forallb foreign_key (map fst extra) = true ->
+  rejected_with s (serve_http_request parse_ip split_host parse_basic_auth t schemes
+                     {| q_method := m'; q_remote := q_remote q; q_headers := extra ++ q_headers q |}).
+Proof. exact no_header_opens_gate. Qed.
+Print Assumptions C12_no_header_opens_gate.
+
+(* the two names that are read.  X-Forwarded-For: AccessDeniedHTTP answers true exactly when an
+   address the request carries is rejected by the rules ... *)
+Theorem C12_denied_iff_rejected_address : forall parse_ip split_host r remote host xff,
+  split_host remote = Some host -> parse_ip [] = None ->
+  (access_denied_http parse_ip split_host r remote xff = true <->
+   exists s ip, In s (request_strings host xff) /\ parse_ip (strip_zone s) = Some ip /\
+                deny_by_ip r (Some ip) = true).
+Proof. exact denied_iff_rejected_address. Qed.
+Print Assumptions C12_denied_iff_rejected_address.
+
+(* ... so a further field value never turns a 403 into anything else *)
+Theorem C12_more_xff_keeps_403 :
+  forall parse_ip split_host parse_basic_auth tg (schemes : scheme_table bcreds) q v,
+  parse_ip [] = None ->
+  rejected_with 403 (serve_http_request parse_ip split_host parse_basic_auth (Some tg) schemes q) ->
+  rejected_with 403 (serve_http_request parse_ip split_host parse_basic_auth (Some tg) schemes
+     {| q_method := q_method q; q_remote := q_remote q; q_headers := h_add (q_headers q) k_xff v |}).
+Proof. exact more_xff_keeps_403. Qed.
+Print Assumptions C12_more_xff_keeps_403.
+
+(* Authorization: a further field value is not read when there is one already *)
+Theorem C12_second_authorization_not_read :
+  forall parse_ip split_host parse_basic_auth t (schemes : scheme_table bcreds) q a rest v,
+  h_values (q_headers q) k_authorization = a :: rest ->
+  serve_http_request parse_ip split_host parse_basic_auth t schemes
+    {| q_method := q_method q; q_remote := q_remote q; q_headers := h_add (q_headers q) k_authorization v |}
+  = serve_http_request parse_ip split_host parse_basic_auth t schemes q.
+Proof. exact second_authorization_not_read. Qed.
+Print Assumptions C12_second_authorization_not_read.
+
+(* "an unknown scheme rejects everything": every request, whatever it is made of *)
+Theorem C12_unknown_scheme_rejects_any_request :
+  forall parse_ip split_host parse_basic_auth tg (schemes : scheme_table bcreds) q,
+  t_auth tg <> [] -> schemes (t_auth tg) = None ->
+  ~ passes_gate (serve_http_request parse_ip split_host parse_basic_auth (Some tg) schemes q).
+Proof. exact unknown_scheme_rejects_any_request. Qed.
+Print Assumptions C12_unknown_scheme_rejects_any_request.
+
+(* basic schemes, any set in any state: a request without an Authorization field passes no route
+   that has an auth option - no method and no other header stands in for credentials *)
+Theorem C12_anonymous_request_never_passes :
+  forall parse_ip split_host parse_basic_auth tg (ss : scheme_set) q,
+  t_auth tg <> [] -> h_values (q_headers q) k_authorization = [] ->
+  ~ passes_gate (serve_http_request parse_ip split_host parse_basic_auth (Some tg) (set_table ss) q).
+Proof. exact anonymous_request_never_passes. Qed.
+Print Assumptions C12_anonymous_request_never_passes.
+
+(* with credentials: only if the route's scheme is configured and ITS htpasswd file has a line
+   for the pair the Authorization field decodes to *)
+Theorem C12_request_passes_only_if_file_accepts :
+  forall parse_ip split_host parse_basic_auth cfg tg q,
+  t_auth tg <> [] ->
+  passes_gate (serve_http_request parse_ip split_host parse_basic_auth (Some tg) (set_table (sboot cfg)) q) ->
+  exists k, sget cfg (t_auth tg) = Some k /\ file_accepts (bc_file k) (request_creds parse_basic_auth q) /\
+            h_values (q_headers q) k_authorization <> [].
+Proof. exact gate_request_passes_only_if_file_accepts. Qed.
+Print Assumptions C12_request_passes_only_if_file_accepts.
+
+(* non-vacuity: a route with auth=staff behind deny=ip:6.6.6.6; a CORS preflight (OPTIONS, Origin,
+   Access-Control-Request-Method) without credentials, with a wrong password, with the right pair
+   under Proxy-Authorization: 401; with the right pair: forwarded; listing 6.6.6.6: 403 *)
+Theorem C12_request_nonvacuous :
+  let serve := serve_http_request ex_parse_ip ex_split_host ex_parse_basic in
+  let staff := set_table (sboot ex_staff_cfg) in
+  serve (Some ex_staff_route) staff (ex_request "GET" []) = [ERespond 401] /\
+  serve (Some ex_staff_route) staff (ex_request "OPTIONS" ex_preflight_headers) = [ERespond 401] /\
+  serve (Some ex_staff_route) staff
+        (ex_request "OPTIONS" ((bs "Authorization", [bs "Basic YWxpY2U6eA=="]) :: ex_preflight_headers)) = [ERespond 401] /\
+  serve (Some ex_staff_route) staff
+        (ex_request "OPTIONS" ((bs "Proxy-Authorization", [bs "Basic YWxpY2U6d29uZGVybGFuZA=="]) :: ex_preflight_headers))
+    = [ERespond 401] /\
+  serve (Some ex_staff_route) staff
+        (ex_request "OPTIONS" (ex_preflight_headers ++ [(bs "Authorization", [bs "Basic YWxpY2U6d29uZGVybGFuZA=="])])) = [EUpstream] /\
+  serve (Some ex_staff_route) staff
+        (ex_request "DELETE" [(bs "Authorization", [bs "Basic YWxpY2U6eA=="; bs "Basic YWxpY2U6d29uZGVybGFuZA=="])]) = [ERespond 401] /\
+  serve (Some ex_staff_route) staff
+        (ex_request "OPTIONS" (ex_preflight_headers ++ [(bs "X-Forwarded-For", [bs "8.8.8.8"; bs "6.6.6.6"]);
+                                                       (bs "Authorization", [bs "Basic YWxpY2U6d29uZGVybGFuZA=="])])) = [ERespond 403] /\
+  serve (Some {| t_rules := no_rules; t_auth := bs "nosuch"; t_redirect := 302 |}) staff
+        (ex_request "OPTIONS" ((bs "Authorization", [bs "Basic YWxpY2U6d29uZGVybGFuZA=="]) :: ex_preflight_headers)) = [ERespond 401] /\
+  forallb foreign_key (map fst ex_preflight_headers) = true /\
+  file_accepts ex_file1 ex_alice.
+Proof. exact gate_request_nonvacuous. Qed.
+Print Assumptions C12_request_nonvacuous.
